@@ -5428,7 +5428,12 @@ func (c *BytecodeCompiler) compileHashSetOfValueBase(node *ast.HashSetLiteralNod
 			break
 		}
 
-		vm.HashSetOfValueAppendWithMaxLoad(nil, baseSet, element, 1)
+		_, err := vm.HashSetOfValueAppendWithMaxLoad(nil, baseSet, element, 1)
+		if !err.IsUndefined() {
+			// the element cannot be hashed at compile time (eg. ranges, tuples), add it at runtime
+			firstDynamicIndex = i
+			break
+		}
 	}
 
 	return baseSet, firstDynamicIndex
@@ -5629,7 +5634,11 @@ elementLoop:
 				break elementSwitch
 			}
 
-			vm.HashMapOfValueSetWithMaxLoad(nil, base, key, val, 1)
+			err := vm.HashMapOfValueSetWithMaxLoad(nil, base, key, val, 1)
+			if !err.IsUndefined() {
+				// the key cannot be hashed at compile time (eg. ranges, tuples), add the pair at runtime
+				break elementSwitch
+			}
 			continue elementLoop
 		case *ast.SymbolKeyValueExpressionNode:
 			if !e.IsStatic() {
@@ -6182,7 +6191,11 @@ elementLoop:
 				break elementSwitch
 			}
 
-			vm.HashRecordOfValueSetWithMaxLoad(nil, base, key, val, 1)
+			err := vm.HashRecordOfValueSetWithMaxLoad(nil, base, key, val, 1)
+			if !err.IsUndefined() {
+				// the key cannot be hashed at compile time (eg. ranges, tuples), add the pair at runtime
+				break elementSwitch
+			}
 			continue elementLoop
 		case *ast.SymbolKeyValueExpressionNode:
 			if !e.IsStatic() {
